@@ -800,6 +800,19 @@ class Evaluator:
             return BoolVal(f"nonempty({v!r})", {"view_nonempty": v})
         if isinstance(v, (list, STuple)):
             return bool(v if isinstance(v, list) else v.items)
+        if isinstance(v, CallVal) and v.rec.func is not None and v.rec.func.node.returns is not None:
+            # the result of a package function declared to return an instance of a package class (not Optional) whose
+            # class defines neither __bool__ nor __len__ is truthy
+            ann = v.rec.func.node.returns
+            if isinstance(ann, ast.Constant) and isinstance(ann.value, str):
+                try:
+                    ann = ast.parse(ann.value, mode="eval").body
+                except SyntaxError:
+                    ann = None
+            if isinstance(ann, ast.Name):
+                rc = self.repo.resolve_name(ann.id, v.rec.func.mod)
+                if isinstance(rc, Cls) and not rc.enum_kind() and not any(m_ in c_.methods for c_ in rc.mro() for m_ in ("__bool__", "__len__")) and not any(x.endswith("NamedTuple") or x in ("tuple", "list", "dict", "bytes", "str", "int") for c_ in rc.mro() for x in c_.ext_bases):
+                    return True
         if isinstance(v, (CallVal, BSlice)):
             return BoolVal(f"truthy({v!r})", {"truthy": repr(v)})
         if isinstance(v, SBuf):
